@@ -8,8 +8,10 @@
    pending event, the time that event was posted for (what getFiringTime would return).  That
    this mirror is what the queue holds is a theorem (Proofs/PulseInv.v), not an assumption.
 
-   The numeric maps have no exact Coq counterpart: decimal round(x, 5) (in normalisePhase and in
-   setFiringTime), phaseToState, stateToPhase and rng.random() are answered from an oracle list
+   The numeric maps have no exact Coq counterpart: decimal round(x, 5) in normalisePhase, the binary64
+   value of the time setFiringTime posts for (round(et, 5) before the repair F13, et itself after it: the
+   model is the same for both, the theorems only assume caller time <= answer <= bound of the exact
+   argument), phaseToState, stateToPhase and rng.random() are answered from an oracle list
    held in the user state and consumed in call order; every request is logged with the argument
    the model computed (exactly, in Q) so that hypotheses on the answers can be stated and the
    arguments compared with the implementation's.  The clamp of normalisePhase is modelled.
@@ -19,7 +21,7 @@ From EpyV Require Import Lib.Prelude Model.Kernel.
 Import ListNotations.
 Open Scope Q_scope.
 
-(* kinds of oracle request: round(phi, 5) inside normalisePhase; round(et, 5) inside setFiringTime;
+(* kinds of oracle request: round(phi, 5) inside normalisePhase; the posting time inside setFiringTime;
    phaseToState; stateToPhase; rng.random() *)
 Inductive rkind := RN | RT | RS | RG | RR.
 Definition rkind_eqb (a b : rkind) : bool :=
@@ -116,7 +118,8 @@ Definition pstate : Type := pworld * list action.
 Definition normalise_phase (t x : Q) (w : pworld) : Q * pworld :=
   let '(r, w1) := ask RN t (Qred x) w in (clamp01 r, w1).
 
-(* setFiringTime(n, et): un-post the node's event (non-fatally) if it has one, post at round(et, 5) *)
+(* setFiringTime(n, et): un-post the node's event (non-fatally) if it has one, post at the oracle's value T of et;
+   the kernel posts relative to the handler time t, so the delay is T - t *)
 Definition set_firing_time (t : Q) (n : Z) (et : Q) (st : pstate) : pstate :=
   let '(T, w1) := ask RT t (Qred et) (fst st) in
   let unpost := match ev_of w1 n with Some (k, _) => [AUnpost k false] | None => [] end in
@@ -228,7 +231,9 @@ Definition pulse_table (oracle : list (rkind * Q)) (orders : list (list Z)) : ta
      t_procs := [{| p_events := []; p_setup := snd st ++ probe (fst st) |}];
      t_progs := [fired_prog];
      t_world := fst st;
-     t_equil := fun _ _ => false |}.
+     (* atEquilibrium is only t >= maximumTime; the model also stops once it has lost track of the
+        implementation (oracle of the wrong kind or exhausted, see pw_bad): nothing is claimed about such runs *)
+     t_equil := fun _ w => pw_bad w |}.
 
 (* results(): the final phases [getPhase(t, n) for n in g.nodes()] at t = currentSimulationTime() *)
 Definition final_phases (t : Q) (w : pworld) : list Q * pworld :=
